@@ -1,6 +1,7 @@
 (* C20 — hashing work per operation is bounded independently of the cache size (abstract model;
    the correspondence requires the implementation's Hash::hash count to be <= the model's). *)
 Require Import LruV.A.CostA LruV.A.PanicCost.
+Require Import LruV.A.MonitorsSound LruV.A.MonitorsA LruV.A.PanicProps.
 
 (* For every operation, state and oracle: with departed = len before + (1 if a new entry was added) - len after,
      hashes <= 2 + departed + (if the table was rebuilt then the number of held entries else 0);
@@ -33,6 +34,13 @@ Example C20_example :
      /\ e_hashes evs = 3 /\ length (e_evicted evs) = 2%nat.
 Proof. cbv zeta. eexists _, _, _. split; [vm_compute; reflexivity|]. split; reflexivity. Qed.
 
+(* the monitor evaluated on the implementation (bound from the observed hash calls, the key objects that left, and whether
+   the table was rebuilt) holds for every step of the model whose tokens were distinct before it *)
+Theorem C20_monitor_sound : forall E VS, 0 < E -> VS <= E -> forall s p o s' out evs, Inv E s -> wf_op E s p -> toks_ok s p ->
+  stepA E VS fixed s p o = Some (s', out, evs) -> c20_mon s p (e_hashes evs) (e_rebuilt evs) s' = true.
+Proof. exact c20_mon_sound. Qed.
+
 Print Assumptions C20_bound.
 Print Assumptions C20_clone.
 Print Assumptions C20_hash_points.
+Print Assumptions C20_monitor_sound.
